@@ -18,8 +18,23 @@ def _is(t, *pats):
     return isinstance(t, tuple) and len(t) == 4 and t[0] == "call" and isinstance(t[1], str) and any(names.is_(t[1], p) for p in pats)
 
 
-def _const(t):
-    return t[1] if isinstance(t, tuple) and len(t) == 2 and t[0] == "const" and isinstance(t[1], int) else None
+def _const(t, depth=0):
+    """value of a constant integer term (sums / products of constants folded)"""
+    if not isinstance(t, tuple) or not t or depth > 8:
+        return None
+    if len(t) == 2 and t[0] == "const":
+        return t[1] if isinstance(t[1], int) and not isinstance(t[1], bool) else None
+    if t[0] == "field" and len(t) == 3 and t[2] == "0" and isinstance(t[1], tuple) and t[1][:1] == ("binop",) and "WithOverflow" in t[1][1]:
+        return _const(("binop", t[1][1].replace("WithOverflow", ""), t[1][2], t[1][3]), depth + 1)
+    if t[0] == "binop" and len(t) == 4 and t[1] in ("Add", "Sub", "Mul", "AddUnchecked", "SubUnchecked", "MulUnchecked"):
+        a, c = _const(t[2], depth + 1), _const(t[3], depth + 1)
+        if a is None or c is None:
+            return None
+        r = a + c if t[1].startswith("Add") else (a - c if t[1].startswith("Sub") else a * c)
+        return r if r >= 0 else None
+    if t[0] == "cast" and len(t) == 3:
+        return _const(t[2], depth + 1)
+    return None
 
 
 def known_len(base):
@@ -54,11 +69,9 @@ def view(t, depth=0):
     """(base, lo, hi) of a byte-sequence term; an unrecognised term is its own base: (t, 0, None)"""
     if depth > 40 or not isinstance(t, tuple) or not t:
         return (t, 0, None)
-    if t[0] in ("payload", "try") and len(t) == 2:
-        # unwrap of an infallible length conversion
-        if _is(t[1], *_CONV) and t[1][2]:
-            return view(t[1][2][-1], depth + 1)
-        return (t, 0, None)
+    if t[0] in ("payload", "try") and len(t) == 2 and _is(t[1], *_CONV) and t[1][2]:
+        # unwrap of a length conversion
+        return view(t[1][2][-1], depth + 1)
     if _is(t, "Result::unwrap", "Option::unwrap", "Result::expect", "Option::expect") and t[2] and _is(t[2][0], *_CONV):
         return view(t[2][0][2][-1], depth + 1)
     if _is(t, *_SAME_BYTES) and t[2]:
@@ -87,6 +100,26 @@ def view(t, depth=0):
             return _sub(v, f["start"], f["end"])
         if kind == "RangeToInclusive" and f.get("end") is not None:
             return _sub(v, 0, f["end"] + 1)
+    if t[0] == "subslice_at" and len(t) == 5:
+        v = _close(view(t[1], depth + 1))
+        if not t[4]:
+            return _sub(v, t[2], t[3])
+        if t[3] == 0:
+            return _sub(v, t[2], None)
+        if v[2] is not None:
+            return (v[0], v[1] + t[2], v[2] - t[3])
+    if t[0] == "payload" and len(t) == 2 and _is(t[1], "slice::get", "slice::get_mut") and len(t[1][2]) == 2:
+        # the checked form of range indexing: present exactly when the range is in bounds
+        return view(("call", "core::ops::index::Index::index", t[1][2], 0), depth + 1)
+    if t[0] == "gamma":
+        # a selection between a range of the input and the empty default (which the following length conversion rejects)
+        vs = []
+        for l, x in t[2]:
+            if _is(x, "Default::default") or x == ("default",) or x == ("const", b"") or (isinstance(x, tuple) and x[:1] == ("array",) and not x[1]):
+                continue
+            vs.append(view(x, depth + 1))
+        if vs and all(v == vs[0] for v in vs):
+            return vs[0]
     if t[0] == "elem_at" and len(t) == 3:
         i = _const(t[2])
         if i is not None:
